@@ -17,7 +17,7 @@ ENTRIES = {
              "triangle, sizes differ by <= 1, any covering family assembles to the symmetric zero-diagonal matrix of the metric, "
              "an incomplete family is refused; MSE metric symmetric / non-negative / zero on identical inputs for every expit. "
              "Tied to the code by running the extracted model and the real chunking / ChunkedDistanceMatrix save-load-concat-to_dense / "
-             "MSEDistance on the same generated cases.",
+             "MSEDistance on the same generated cases. The generator lower_triangular_indices is re-translated from /repo's source on every run and proved to yield exactly lower_tri.",
         note="Trusted: Coq kernel, extraction (ExtrOcamlBasic, ExtrOcamlZBigInt), OCaml driver, Python harness; h5py and numpy storage are modelled (identity round trip; zero-initialised slots abstracted); the CLI wrapper is not exercised."),
     "C15": dict(
         text="Theorems (all n >= 0, ALL k, all indices): the generator's product loop computes C(n,k); for 0 <= i < C(n,k) it returns "
@@ -52,7 +52,7 @@ ENTRIES = {
              "summed declared size; evaluate_model's chain ids label each column with the chain its sample came from on complete chains and "
              "partial chains are refused; add beyond declared / get out of range / save empty / concat of nothing are Err. Tied to the code by "
              "running the extracted model and the real ThetaHolder save_h5/load_h5/concat/add/get and evaluate_model.main() on the same cases, "
-             "compared bit-for-bit.",
+             "compared bit-for-bit. In addition the ThetaHolder methods __init__, n_thetas, get_theta, add_theta, is_complete, combine, concat, load_h5 and save_h5 are re-translated from /repo's source into Gallina on every run and C10_model_is_source_* prove the model equal to the translations (h5py calls are declared primitives).",
         note="Trusted: Coq kernel, extraction, OCaml driver, Python harness; HDF5/h5py storage and from_dicts are modelled as identity on "
              "(private, shared) and checked bitwise per case; shared parameters are taken from sample 0 (holders mixing different single-effect "
              "tables are characterised by C10_load_save_general, not counted as violations unless VERIF_C10_STRICT_SHARED=1: the shipped model "
@@ -116,7 +116,7 @@ ENTRIES = {
              "is scored on the first-occurrence-unique (by sample, treatments; screen storage order) union of its own and the batch plates' rows; "
              "after save/load/concat the selected plate is a candidate, allowed, of minimal score among allowed plates, ties resolved as numpy "
              "argmin; None iff nothing is allowed. Tied to the code by running the extracted model and the real Screen / score_chunk / "
-             "ChunkedScoresHolder save_h5-load_h5-concat / select_next_plate / both CLI main()s on the same generated cases.",
+             "ChunkedScoresHolder save_h5-load_h5-concat / select_next_plate / both CLI main()s on the same generated cases. In addition select_next_plate, score_chunk and the ChunkedScoresHolder methods add_score / combine / concat / plate_id_with_minimum_score are re-translated from /repo's source into Gallina on every run (harness/py2gal.py) and C06_model_is_source_* prove the models equal to the translations for all inputs.",
         note="Trusted: Coq kernel, extraction, OCaml driver, Python harness. numpy/h5py storage is modelled (identity round trip; "
              "zero-initialised slots modelled explicitly). The scorer is a function returning one score per handed plate (DBAL scorer is C05); "
              "KPerSamplePlatePolicy is replayed as data (C16). A non-empty batch with no id in the screen makes the code raise (stated as a "
@@ -127,7 +127,7 @@ ENTRIES = {
              "unobserved views split the screen by its mask (None iff empty), plates partition the rows; to_screen keeps the rows and never "
              "fails on constructor-built parents; the unique filter keeps exactly the first row per (sample id, treatment ids) key; views of "
              "different parents are refused; by induction on the op tree, every evaluated composition selects exactly the index-set reference "
-             "semantics. Tied to the code by running the extracted model and the real ScreenSubset / Plate / Screen API on the same random trees; single_treatment_effects is checked as one more per-row attribute of every view.",
+             "semantics. Tied to the code by running the extracted model and the real ScreenSubset / Plate / Screen API on the same random trees; single_treatment_effects is checked as one more per-row attribute of every view. In addition ScreenSubset.__init__ / subset / combine / concat / invert / to_screen, its attribute properties, and Screen.subset / subset_observed / subset_unobserved / get_plate / plates are re-translated from /repo's source into Gallina on every run and C14_model_is_source_* prove the model equal to the translations.",
         note="Trusted: Coq kernel, extraction, driver, harness. numpy boolean indexing, np.where, fancy assignment and np.unique(return_index) "
              "first-occurrence behaviour are modelled by their documented effect and exercised on every case. Parent identity is a tag. Mutation "
              "and aliasing are checked only at run time by pred. to_screen may renumber ids; rows are what is promised. single_treatment_effects, "
@@ -169,7 +169,7 @@ ENTRIES = {
              "experiment-space sizes are frozen over every history on either half of any split; same name gives same id across stages. Refuted by "
              "vm_compute for the variant without mappings (the pre-repair code). The extracted model is compared after every operation with the "
              "real code on simulations prepared by the real hold-out (recorded rng), incl. h5py save/load and the reveal_plate CLI; the variant "
-             "the tree implements is detected from behaviour; the three former witnesses are corpus cases. The prepare_retrospective_simulation CLI main() is run in-process with random generator / smoother / initial-plate options and the training / test screens it writes must agree on every id (implementation-only predicate).",
+             "the tree implements is detected from behaviour; the three former witnesses are corpus cases. The prepare_retrospective_simulation CLI main() is run in-process with random generator / smoother / initial-plate options and the training / test screens it writes must agree on every id (implementation-only predicate). C03_source_variant_unique: the translation of reveal_plates / mask_screen / unmask_screen (C12 link) determines which call sites pass the mappings on.",
         note="Trusted: Coq kernel, extraction, OCaml driver, harness. HDF5 storage is modelled as the identity. The hold-out selection is recorded "
              "from the real rng. The renumbering defect found here (reveal/mask/unmask dropped the mappings) was repaired in /repo (fix: e414171). "
              "predict_stable is a corollary stated in prose (predictions index embeddings by id; C09 proves row-wise prediction)."),
@@ -194,7 +194,7 @@ ENTRIES = {
              "OR (plate id in ids) with conditions, plates and value bits unchanged; unobserved-plate counter drops by exactly the number of "
              "distinct newly revealed plates; constructor mask rules; set_observed exactness; refusal of all-zero, empty, unknown-id and NaN "
              "selections; definedness when guards pass. Compared after every operation with the real code, including h5py save/load and the "
-             "reveal_plate and extract_screen_metadata CLIs.",
+             "reveal_plate and extract_screen_metadata CLIs. In addition reveal_plates, mask_screen, unmask_screen, Screen.set_observed and the observation-mask statements of Screen.__init__ are re-translated from /repo's source into Gallina on every run and C12_model_is_source_* prove the model equal to the translations.",
         note="Trusted: Coq kernel, extraction, driver, harness. Observation values cross as float64 bit patterns. reveal_plates takes one screen and "
              "uses that screen's own plate ids. set_observed is outside the atomicity clause (it performs no plate check). Independent of sample "
              "and treatment ids."),
@@ -206,7 +206,7 @@ ENTRIES = {
              "or relaunched; no index skipped; inputs from the predecessor), under 'marker published last' and the repaired examine (or batch size "
              "1); both hypotheses shown necessary by vm_compute witnesses. The real script is driven in-process against a fake nextflow over all "
              "single and (thorough) exhaustive/sampled pairs of crash points, launch log and final tree compared with the model and with the "
-             "crash-free run.",
+             "crash-free run. The invocation level (what run_next_* returns, the while loop of main(), the operator handing over a new screen per completed prospective batch) is modelled: an invocation never crosses a batch boundary, every launched step reads the operator screen of its iteration, invocations stop exactly at the batch boundary / when no plate remains; main() is driven per invocation with a distinct --screen per operator screen.",
         note="No nextflow engine exists in the sandbox: workflows are represented by harness/fake_nextflow (publishes the files the script globs "
              "for, in a commanded order, crashing on command); nextflow's own resume cache and asynchronous publishDir are outside the model. The "
              "empty-iteration-directory defect found here was repaired in /repo (fix: 77b0dc7; witness in corpus/C19). KNOWN FINDING "
@@ -217,7 +217,7 @@ ENTRIES = {
              "unobserved experiments up to plate label, smoothers return a sub-multiset, the observed part passes through unchanged; the hold-out "
              "split is a partition including plate labels and masks, with exactly ceil(fraction*size) rows of each unobserved plate and none of "
              "the others under numpy's choice contract. Tied to the code by running the extracted model and the real classes on the same cases "
-             "with every rng / heappop / argsort answer recorded and replayed; full row lists compared exactly.",
+             "with every rng / heappop / argsort answer recorded and replayed; full row lists compared exactly. In addition the core.py wrappers generate_plates / smooth_plates, MergeMin, MergeTopBottom and the plate-balanced hold-out are re-translated from /repo's source into Gallina on every run and C11_model_is_source_* prove the models equal to the translations (MergeMin's `while True` for sufficient fuel).",
         note="Trusted: Coq kernel, extraction, OCaml driver, Python harness including the recording Generator wrapper; numpy permutation/choice, "
              "heapq and argsort enter as oracle answers whose contract is checked on every run; Screen constructor reduced to the plate-uniform "
              "check; ids modelled as ranks of names; ceil(size*fraction) exact for dyadic fractions, Python's value otherwise."),
